@@ -300,6 +300,7 @@ class Compiler:
             return_type=ret_type,
         )
         transformer.macros = self.transformer.macros
+        transformer.il_ops_holder.hybrid_tmp_prefix = f"h_tmp_{name}_"
         body = transformer.transform(ast_body)
         return SubRoutine(name, ret_type, params, body)
 
